@@ -88,6 +88,11 @@ def dropnaMin (howAll : Bool) (thresh : Option Nat) (n : Nat) : Int :=
   | some t => (n : Int) - (t : Int) + 1
   | none => if howAll then n else 1
 
+/-- `unpivot(ids, values, var, val)`: one `SELECT ids…, '<name>' AS var, <name> AS val` per value column -/
+def unpivotTable (T : Table) (ids vals : List Name) (var val : Name) : Table :=
+  { cols := ids ++ [var, val],
+    rows := vals.flatMap (fun v => T.rows.map (fun r => ids.map (lookup T.cols r) ++ [Val.str v, lookup T.cols r v])) }
+
 /-! ### method bodies (what runs inside the wrapper) -/
 
 def bodyWhere (p : Expr) (d : DF) : DF :=
@@ -120,6 +125,7 @@ inductive Step
   | replace (old new : Val) (sub : List Name)
   | toDF (names : List Name)
   | dropna (howAll : Bool) (thresh : Option Nat) (sub : List Name)
+  | unpivot (ids vals : List Name) (var val : Name)
   deriving Repr
 
 /-- one public method call, composed the way dataframe.py composes it -/
@@ -156,6 +162,14 @@ def DF.apply (d : DF) : Step → DF
           let d2 := wrapper tag_where (bodyWhere (.bin .lt (.col "num_nulls") (.lit (.int (dropnaMin howAll thresh sub.length))))) d1
           wrapper tag_select (bodySelect (identSel all)) d2) d
 
+  | .unpivot ids vals var val =>
+      -- unpivot: wrap, UNION [ALL] of one select per value column over the frozen CTE, wrap again
+      wrapper tag_unpivot
+        (fun d =>
+          let U := unpivotTable d.eval ids vals var val
+          let U := if unpivotDistinct then { U with rows := dedup U.rows } else U
+          { src := U, blk := { sel := identSel U.cols }, last := d.last }) d
+
 def DF.run (d : DF) (steps : List Step) : DF := steps.foldl DF.apply d
 
 /-! ### PySpark's sequential meaning of the same steps (specification) -/
@@ -174,6 +188,10 @@ def specStep (T : Table) : Step → Table
   | .dropna howAll thresh sub =>
       { T with rows := T.rows.filter (fun r =>
           decide (((sub.filter (fun c => lookup T.cols r c = .null)).length : Int) < dropnaMin howAll thresh sub.length)) }
+
+  | .unpivot ids vals var val =>
+      -- PySpark emits, for each row, one output row per value column (row-major); as a bag this is `unpivotTable`
+      unpivotTable T ids vals var val
 
 def specRun (T : Table) (steps : List Step) : Table := steps.foldl specStep T
 
